@@ -1426,6 +1426,9 @@ func (fr *Frame) runDefers() {
 	for i := len(fr.defers) - 1; i >= 0; i-- {
 		d := fr.defers[i]
 		if !d.block.Dominates(fr.curBlock) {
+			if !blockReaches(d.block, fr.curBlock) {
+				continue // this return cannot follow the defer statement
+			}
 			unsupp("conditional defer")
 		}
 		fr.execCall(d.d, &d.d.Call)
@@ -1457,4 +1460,23 @@ func (fr *Frame) execSelect(x *ssa.Select) {
 	fr.tuples[x] = res
 	c.setGhost(fr.st, "select", idx)
 	fr.selectHook(x, idx)
+}
+
+// blockReaches reports whether block to is reachable from block from in the CFG.
+func blockReaches(from, to *ssa.BasicBlock) bool {
+	seen := map[int]bool{}
+	stack := []*ssa.BasicBlock{from}
+	for len(stack) > 0 {
+		b := stack[len(stack)-1]
+		stack = stack[:len(stack)-1]
+		if b == to {
+			return true
+		}
+		if seen[b.Index] {
+			continue
+		}
+		seen[b.Index] = true
+		stack = append(stack, b.Succs...)
+	}
+	return false
 }
